@@ -1,10 +1,10 @@
 (* Extraction of the memory models (buffer / string_stream) and their value-semantics specs. *)
 Require Extraction.
 Require Import ExtrOcamlBasic.
-From ST Require Import Base.Outcome Base.Units Mem.Heap Mem.Buffer Mem.BufferRun Mem.Stream Mem.StringOps Gen.Consts.
+From ST Require Import Base.Outcome Base.Units Mem.Heap Mem.Buffer Mem.BufferRun Mem.Stream Mem.StreamText Mem.StringOps Utf.Model Utf.Spec Gen.Consts.
 Extraction "../_work/ocaml/ex_mem.ml"
   run_history leaked_after_scope store0 spec_history spec_bop sstore0
   local_length_char local_length_wchar local_length_char16 local_length_char32
   run_shistory s_leaked_after_scope sstate0 spec_shistory bstore0 stack_string_size
-  swith_fail run_thistory t_leaked_after_scope spec_thistory with_fail scratch_base
+  s_to_string spec_sop swith_fail run_thistory t_leaked_after_scope spec_thistory with_fail scratch_base
   to_ssize of_ssize.
